@@ -358,5 +358,16 @@ pub fn run(ctx: &Arc<Ctx>) {
     ctx.sample(serde_json::to_value(&cases[0]).unwrap());
     ctx.sample(serde_json::to_value(&cases[cases.len() - 1]).unwrap());
     run_cases(ctx, &cases, 4, eval);
+    {
+        let mut items = Vec::new();
+        for (ke, id) in [(&masters[0].1, "Bob"), (&masters[2].1, "Bob"), (&masters[0].1, "len:40"), (&masters[2].1, "")] {
+            items.push(Case::Enc { ke: hexbig(ke), id: id.into(), msg_len: 24, r: hexbig(&rs[5].1), tag: "sequence".into() });
+        }
+        let mut seqs = permutations(&items);
+        let d: Vec<Case> = [(&masters[0].1, "Bob"), (&masters[2].1, "Bob"), (&masters[0].1, "len:40"), (&masters[2].1, "len:40")].iter().map(|(ke, id)| Case::Dec { ke: hexbig(ke), id: id.to_string(), msg_len: 24, r: hexbig(&rs[5].1), tamper: "none".into() }).collect();
+        seqs.extend(permutations(&d));
+        ctx.cov("related_input_sequences", serde_json::json!(seqs.len()));
+        run_sequences(ctx, &seqs, eval);
+    }
     let _ = (BigUint::zero(), hook::rng_queue_len);
 }
